@@ -8,6 +8,7 @@ returns" is "fuel linear in the input never sets `oof`"; "the Go loop never term
 fuel sets `oof`".
 -/
 import Ggql.Proofs.ScanLemmas
+import Ggql.Proofs.ScanTotal
 import Ggql.Model.SdlCF
 import Ggql.Model.ExeCF
 namespace Ggql.C03
@@ -34,6 +35,32 @@ theorem C03_readNumberToken_total (p : P) (h : p.oof = false) :
     (readNumberToken cm p).2.oof = false ∧ (readNumberToken cm p).2.mu + (readNumberToken cm p).1.1.length ≤ p.mu := by
   have := readNumberToken_spec cm p
   exact ⟨by rw [this.1, h], this.2⟩
+
+/-! ### `ParseValue` always returns -/
+
+/-- **C03_parseValue_total.**  For every byte string and every way the reader can end (EOF, EOF together
+with the last byte, a non-EOF error), `ParseValue` returns: the model, run with the fuel `2·|input| + 8`,
+never runs out of fuel, and the scanner ends no further back than it started.  `hnum` — every byte that
+sends `readValue` into its number arm is a number character — is a fact about the regenerated `numMap`
+(`C03Inst.gen_numStart_isNum`). -/
+theorem C03_parseValue_total (hnum : ∀ b, isNumStart b = true → cm.isNum b = true) (bytes : List UInt8) (tail : Tail) :
+    (parseValue cm bytes tail).2.oof = false := by
+  unfold parseValue
+  have := (readValue_le cm hnum (P.init bytes tail)).1
+  simpa [P.init] using this
+
+/-- the same for the pieces every parser shares: a type expression, a directive use list and an argument
+list, from any scanner state -/
+theorem C03_readType_total (p : P) (h : p.oof = false) : (readType cm p.vfuel p).2.oof = false := by
+  rw [(readType_le cm p).1]; exact h
+
+theorem C03_readDirs_total (hnum : ∀ b, isNumStart b = true → cm.isNum b = true) (p : P) (h : p.oof = false) :
+    (readDirs cm p).2.oof = false := by
+  rw [(readDirs_le cm hnum p).1]; exact h
+
+theorem C03_readArgValues_total (hnum : ∀ b, isNumStart b = true → cm.isNum b = true) (p : P) (h : p.oof = false) :
+    (readArgValues cm p).2.oof = false := by
+  rw [(readArgValues_le cm hnum p).1]; exact h
 
 /-! ### D01: a stray closing brace at top level spins `parseSDL` for ever -/
 
